@@ -144,8 +144,15 @@ class Worker:
         self.ncalls = 0
 
     def request(self, req):
+        import select
         self.p.stdin.write(json.dumps(req) + "\n")
         self.p.stdin.flush()
+        # a change can make the real code loop; a call that does not return is reported like an exception (the limit covers a cold Numba compile many times over)
+        limit = float(os.environ.get('VERIF_CALL_TIMEOUT', '300'))
+        ready, _, _ = select.select([self.p.stdout], [], [], limit)
+        if not ready:
+            self.p.kill()
+            raise RemoteError('Timeout', 'the real library did not return within %.0f s' % limit)
         line = self.p.stdout.readline()
         if not line:
             raise RuntimeError("replay worker died")
